@@ -216,3 +216,37 @@ Example C19_literal_loops_nonvacuous :
   (exists s', runl (guardA [0%nat; 1%nat] L_lit) gLT p_lit s_lit = Some s' /\ val s' (1%nat, [6]) <> val s_lit (1%nat, [6])).
 Proof. exact literal_loops_nonvacuous. Qed.
 Print Assumptions C19_literal_loops_nonvacuous.
+
+(* ------------------------------------------------------------------------------------------------
+   Deepening 2 (C19/Static.v): the no-alias guard discharged statically. *)
+From PV Require Import C19.Static.
+
+(* alias_free (computable, syntactic): every rhs reference to the assigned array has the lhs subscripts
+   textually or subscripts differing from them by a non-zero literal offset in some dimension
+   => the run-time no-alias guard holds for EVERY store *)
+Theorem C19_alias_free_guard : forall acts L s x ix e, alias_free_assign acts x ix e = true ->
+  guardDom acts L s x ix e = true -> guardA acts L s x ix e = true.
+Proof. exact alias_free_guard. Qed.
+Print Assumptions C19_alias_free_guard.
+
+(* only static conditions (safe = linear subset, literal loops, alias_free); the single run-time
+   hypothesis left is the domain one: the execution touches active data inside L only (guardDom) *)
+Theorem C19_dot_adjoint_static : forall acts L, NoDup L -> (forall l, In l L -> act acts (fst l) = true) ->
+  forall fl p q sx sy sx',
+  safe fl acts p = true -> lit_l p = true -> alias_free acts p = true -> adj fl acts p = Some q ->
+  same_passive acts (lvars_l p) sx sy ->
+  runl (guardDom acts L) gLT p sx = Some sx' ->
+  exists sy', run q sy = Some sy' /\ dot L sx' sy = dot L sx sy' /\
+              same_passive acts (lvars_l p) sx sx' /\ same_passive acts (lvars_l p) sy sy'.
+Proof. exact dot_adjoint_static. Qed.
+Print Assumptions C19_dot_adjoint_static.
+
+(* non-vacuity: do i = 2, 8, 3 ; a(i) = a(i-1) + 2*b(i) is in the class, a(i) = a(kk+1) + b(i) is not *)
+Example C19_static_nonvacuous :
+  safe (mkFlags true true) [0%nat; 1%nat] p_st = true /\ lit_l p_st = true /\ alias_free [0%nat; 1%nat] p_st = true /\
+  (exists q, adj (mkFlags true true) [0%nat; 1%nat] p_st = Some q) /\
+  (exists s', runl (guardDom [0%nat; 1%nat] L_lit) gLT p_st s_st = Some s' /\ val s' (0%nat, [2]) <> val s_st (0%nat, [2])) /\
+  alias_free [0%nat; 1%nat]
+    [SAssign 0%nat [EVar 9%nat] (EBin Add (EIdx 0%nat [EBin Add (EVar 7%nat) (ELit 1)]) (EIdx 1%nat [EVar 9%nat]))] = false.
+Proof. exact static_nonvacuous. Qed.
+Print Assumptions C19_static_nonvacuous.
